@@ -43,6 +43,7 @@ type connObs struct {
 	MitmApplied bool
 	DataErr     string
 	CHs         []*clientHello // ClientHello message(s) as sent
+	CHRaw       []byte         // the client's first write (the record(s) holding its first ClientHello)
 	Flight      *serverFlight  // plaintext Certificate / ServerKeyExchange (TLS <= 1.2)
 	PeerLeaf    []byte         // client ConnectionState.PeerCertificates[0].Raw
 	digest      [32]byte
@@ -263,6 +264,9 @@ func runConn(cc, sc *tls.Config, down uint16) *connObs {
 	s2c := s.Net.Stream(tlsx.S2C)
 	o.Hellos = serverHellos(s2c)
 	o.CHs = clientHellos(s.Net.Stream(tlsx.C2S))
+	if ws := s.Net.Writes(tlsx.C2S); len(ws) > 0 {
+		o.CHRaw = ws[0]
+	}
 	if h := o.hello(); h != nil && h.Version <= V12 {
 		si, _ := suiteOf(h.Suite)
 		o.Flight = parseServerFlight(s2c, strings.HasPrefix(si.Kx, "ECDHE"), h.Version == V12)
@@ -540,17 +544,48 @@ func (r *reporter) check(m *model, c Cfg, obs []*connObs) {
 		r.checkGroup(c, i, o, si, known, viol)
 		// preference rule
 		exact, exactWhy := p.Exact, p.ExactWhy
+		ruleCands := p.Cands
 		if v == p.Version && v <= V12 && p.ExactWhy == "multi-cert" {
 			// several chains: the rule is judged among the suites usable with the chain presented
 			if presented >= 0 {
 				one := certsOf(c.Key)[presented : presented+1]
 				cands, doubt := m.cands12(c, &p, one, true)
 				exact, exactWhy = m.exact12(c, &p, cands, doubt)
+				ruleCands = cands
 			} else {
 				exact, exactWhy = 0, "multi-cert:presented-chain-unknown"
 			}
 		}
+		r.checkDefaultHello(c, i, o, viol)
 		switch {
+		case v == p.Version && v <= V12 && exact == 0 && (exactWhy == "server-default-order" || exactWhy == "client-default-order") && o.lastCH() != nil && !(second && o.S.Resumed):
+			// the preferring side's list is the DEFAULT list: documented order (defaults.go), the
+			// client's order being the one of its ClientHello on the wire
+			wire := o.lastCH().Suites
+			allowed, why := m.exact12default(c, ruleCands, wire, aesHW)
+			if why != "" || len(allowed) == 0 {
+				if why == "" {
+					why = exactWhy + ":no-candidate-on-the-wire"
+				}
+				r.hist["suite/membership-only:"+why]++
+				break
+			}
+			r.hist["suite/exact-rule-checked("+exactWhy+")"]++
+			if len(allowed) > 1 {
+				r.hist["suite/exact-rule-checked("+exactWhy+"):two-orders-accepted"]++
+			}
+			if !has16(allowed, s) {
+				if c.Prefer {
+					viol(i, "suite: PreferServerCipherSuites=true, server CipherSuites=nil: not the most preferred usable common suite of the documented default order (AES-GCM behind ChaCha20 iff the ClientHello does not start with AES-GCM, everything else in place)",
+						fmt.Sprintf("selected %s, rule gives %v (ClientHello offers %v, aes hardware=%d)", sname(s), names(allowed), names(wire), aesHW))
+				} else {
+					viol(i, "suite: PreferServerCipherSuites=false, client CipherSuites=nil: not the first usable common suite of the ClientHello",
+						fmt.Sprintf("selected %s, rule gives %v (ClientHello offers %v)", sname(s), names(allowed), names(wire)))
+				}
+			}
+			if c.Prefer {
+				r.checkGoroot(m, c, i, o, ruleCands, viol)
+			}
 		case v == p.Version && v == V13 && len(p.Cands) > 0 && o.lastCH() != nil:
 			// TLS 1.3: the suite is negotiated afresh on a resumed connection as well
 			allowed, why := m.exact13(c, &p, o.lastCH().Suites, aesHW)
@@ -642,6 +677,56 @@ func (r *reporter) check(m *model, c Cfg, obs []*connObs) {
 		if len(o.Hellos) > 1 {
 			r.hist["ok/with-hello-retry-request"]++
 		}
+	}
+}
+
+// checkDefaultHello: a client with CipherSuites=nil offers the documented default suites in the documented order
+// (its preference, which a server with PreferServerCipherSuites=false follows).
+func (r *reporter) checkDefaultHello(c Cfg, i int, o *connObs, viol func(int, string, string)) {
+	if c.CS != nil || aesHW == -1 || len(o.CHs) == 0 || c.Down != 0 {
+		return
+	}
+	var got []uint16
+	for _, id := range o.CHs[0].Suites {
+		if id != 0x00FF && id != 0x5600 { // renegotiation_info and fallback signalling values are not suites
+			got = append(got, id)
+		}
+	}
+	want := defaultHelloSuites(c.CMax, aesHW)
+	if eq16(got, want) {
+		r.hist["suite/default-clienthello-is-the-documented-list"]++
+		return
+	}
+	viol(i, "suite: client CipherSuites=nil: the ClientHello does not offer the documented default suites in the documented preference order",
+		fmt.Sprintf("offered %v, documented %v (client max %s, aes hardware=%d)", names(got), names(want), vname(c.CMax), aesHW))
+}
+
+// checkGoroot: second opinion on the default server order. The GOROOT crypto/tls server with the same key, versions,
+// curves and the same suites enabled answers the very ClientHello the zcrypto server saw; it selects by the same
+// documented table (whatever the client's order), so whenever it negotiates the same version and both servers
+// regard the same first suite of the ClientHello as valid, the suite must be the same.
+func (r *reporter) checkGoroot(m *model, c Cfg, i int, o *connObs, cands []uint16, viol func(int, string, string)) {
+	if i != 0 || c.Down != 0 || strings.Contains(c.Key, "+") || o.CHRaw == nil || o.lastCH() == nil || len(o.CHs) != 1 {
+		return
+	}
+	wire := o.lastCH().Suites
+	if len(wire) == 0 || !stdSupports(wire[0]) || !m.exported[wire[0]] {
+		r.hist["goroot/not-comparable:first suite of the ClientHello unknown to one of the two"]++
+		return
+	}
+	sh := stdAnswer(o.CHRaw, stdServerConfig(c))
+	switch {
+	case sh == nil:
+		r.hist["goroot/not-comparable:crypto/tls refuses the ClientHello"]++
+	case sh.Version != o.S.Version:
+		r.hist["goroot/not-comparable:crypto/tls negotiates another version"]++
+	case !has16(cands, sh.Suite):
+		r.hist["goroot/not-comparable:crypto/tls selects outside the common usable set of the model"]++
+	case sh.Suite != o.S.Suite:
+		viol(i, "suite: PreferServerCipherSuites=true, server CipherSuites=nil: the suite selected differs from the one the GOROOT crypto/tls server selects for the same ClientHello with the same suites enabled",
+			fmt.Sprintf("zcrypto %s, crypto/tls %s (ClientHello offers %v)", sname(o.S.Suite), sname(sh.Suite), names(wire)))
+	default:
+		r.hist["goroot/same-suite-as-crypto/tls"]++
 	}
 }
 
